@@ -36,7 +36,8 @@ def is_state_cluster_entry(t):
 def is_symbol_entry(t):
     t = t.replace('const ', '')
     return (t.startswith('std::pair<unsigned long, std::shared_ptr<std::set<std::shared_ptr<std::vector<unsigned long') or
-            t.startswith('std::pair<unsigned long, std::unordered_set<unsigned long'))
+            t.startswith('std::pair<unsigned long, std::unordered_set<unsigned long') or
+            t.startswith('std::pair<unsigned long, VATA::ExplicitFiniteAut::StateSet'))
 
 
 def is_tuple_handle(t):
@@ -100,7 +101,7 @@ class Kinds:
         # successor set of an NFA cluster entry:  entry.second  with entry a symbol entry holding a set of states
         if r['k'] == 'MemberExpr' and r['n'] == 'second' and r.get('ch'):
             bt = self.unit.ty(strip(r['ch'][0]) or r['ch'][0])
-            if bt.replace('const ', '').startswith('std::pair<unsigned long, std::unordered_set<unsigned long'):
+            if bt.replace('const ', '').startswith(('std::pair<unsigned long, std::unordered_set<unsigned long', 'std::pair<unsigned long, VATA::ExplicitFiniteAut::StateSet')):
                 return 'A'
         return None
 
